@@ -81,6 +81,14 @@ func genC02(t *rapid.T) C02Scn {
 		l := C02Link{A: p, B: i}
 		if rapid.Bool().Draw(t, "stream") {
 			l.Chunks = rapid.SliceOfN(rapid.SampledFrom([]int{1, 1, 2, 3, 5, 36, 37, 38, 100, 1400, 4096, 65536}), 1, 5).Draw(t, "chunks")
+			if rapid.IntRange(0, 3).Draw(t, "socket") == 0 {
+				l.Socket = rapid.SampledFrom([]string{"tcp", "tcp", "ws"}).Draw(t, "sockkind")
+				for i := range l.Chunks {
+					if l.Chunks[i] < 64 {
+						l.Chunks[i] = 64 + 7*i // tiny pieces over real sockets would make one 16 KiB frame outlast the nodes' shortened idle limit
+					}
+				}
+			}
 		}
 		s.Links = append(s.Links, l)
 	}
@@ -108,7 +116,7 @@ func genC02(t *rapid.T) C02Scn {
 }
 
 func TestC02(t *testing.T) {
-	st := vx.NewStats("C02", "datagrams", "real meshes (chains / trees of 2-6 nodes) whose links are datagram links or receptor-framed byte streams read in drawn piece sizes (1 B - 64 KiB); node IDs = distinct UTF-8 strings "+
+	st := vx.NewStats("C02", "datagrams", "real meshes (chains / trees of 2-6 nodes) whose links are datagram links, receptor-framed byte streams read in drawn piece sizes (1 B - 64 KiB), or the real TCP / websocket backends on loopback through a re-chunking proxy; node IDs = distinct UTF-8 strings "+
 		"(spaces, ':', non-ASCII, case variants, near-'localhost'); 2-7 listeners with service names of 1-8 bytes from 1..255 (incl. exactly 8 bytes, the same name on several nodes, prefixes of reserved names); 1-24 sends in "+
 		"concurrent batches (payload length biased to 0, 1, 35-37, 255-257, ~1200, ~1400, 4096, 16383, 16384; random / zero / 0xff / counter bytes; sender overwrites its buffer right after WriteTo), some to unbound services; "+
 		"oracle: per listener the multiset of (payload, source node, source service) received equals the multiset addressed to it; non-trivial = (>= 2 hops or a frame split across reads) and a payload > 1 KiB")
